@@ -31,6 +31,8 @@ pub struct Info {
     pub empty_tuple_pattern_zones: Vec<(u32, u32)>,
     pub empty_arrays: u32,
     pub annotated: u32,
+    /// spans of all binding patterns (let names, alternatives, do binders)
+    pub pattern_spans: Vec<(u32, u32)>,
     pub constructs: Vec<&'static str>,
     /// some sibling list is not ordered and disjoint (only error recovery produces this)
     pub disordered: bool,
@@ -172,6 +174,7 @@ impl<'s> Walker<'s> {
     }
 
     fn pattern(&mut self, p: &SpannedPattern<'_, Symbol>, parent: (u32, u32)) {
+        self.info.pattern_spans.push((lo(p.span), hi(p.span)));
         match &p.value {
             Pattern::As(_, q) => self.pattern(q, parent),
             Pattern::Ident(id) => {
